@@ -10,7 +10,9 @@ import (
 
 // C05: compaction is logically invisible, even with interleaved writers and crashes.
 func propC05(ch core.Chooser, st *core.Stats) error {
-	_, ukeys := drawUniverse(ch)
+	// a third of the universes put 40 keys into one bucket chain: compaction's index lookups then
+	// walk overflow buckets, with holes left by deletes
+	_, ukeys := drawUniverseP(ch, 35)
 	cfg := dbx.DrawConfig(ch, []int{600, 1024, 2048})
 	cfg.Frag = []float32{0.02, 0.1, 0.3, 0.5}[ch.Int("frag5", 0, 3)]
 	// the minimum segment size for compaction: mostly the smallest, sometimes close to the
@@ -31,6 +33,23 @@ func propC05(ch core.Chooser, st *core.Stats) error {
 	ch.Note("config: %s universe=%d keys hotcold=%v", cfg, len(ukeys), s.hotCold)
 	if err := s.open(); err != nil {
 		return err
+	}
+	// directed (universes with the 40-key chain): store the whole chain - one main bucket plus an
+	// overflow bucket - and delete a few keys of its first bucket, so that compaction looks up
+	// live records that sit behind a hole of their chain
+	if len(ukeys) >= 50 && core.Pct(ch, "chain_prefill", 60) {
+		chain := ukeys[3:43]
+		for _, k := range chain {
+			if err := s.put(k, core.PickInt(ch, "chain_vlen", []int{1, 5, 20})); err != nil {
+				return err
+			}
+		}
+		for i, n := 0, ch.Int("chain_holes", 1, 3); i < n; i++ {
+			if err := s.del(chain[ch.Int("chain_hole", 0, 30)]); err != nil {
+				return err
+			}
+		}
+		st.Count("histories_with_chain_prefill", 1)
 	}
 	// phase 1: fill segments and make them eligible (overwrites and deletes of hot keys)
 	delw := core.PickInt(ch, "prefill_delw", []int{0, 0, 1, 4})
